@@ -69,6 +69,14 @@ def run(pid, tier, args):
                     v.violation("Parseable root type: repeated ParseFromLexer over `a b c` gives [%s], expected [%s]" % (got, want), {"property": pid, "kind": "api-parseable", "real": got, "expected": want})
             for key, eps in calls.items():
                 ncases += 1
+                if key[0] == "textcfg":
+                    # static parser over a configured text/scanner lexer: relational checks only
+                    outs = {ep: eps[ep] for ep in PARSE_EPS if ep in eps}
+                    louts = {ep: eps[ep] for ep in LEX_EPS if ep in eps}
+                    if len(set(outs.values())) > 1 or len(set(louts.values())) > 1:
+                        v.violation("parser over NewTextScannerLexer(configure), input #%d: entry points disagree: %s" % (key[2], json.dumps({**outs, **louts})[:500]),
+                                    {"property": pid, "kind": "api-textcfg", "calls": eps})
+                    continue
                 g = byid[key[0]]
                 inp = g["inputs"][key[2]]["s"]
                 bad = None
